@@ -17,6 +17,11 @@ fn gen_program(rng: &mut Rng, luau: bool) -> String {
         else if rng.chance(1, 5) && in_region { out.push_str("-- stylua: ignore end\n"); in_region = false; }
         if rng.chance(1, 16) { out.push_str("-- stylua: ignore\n"); }
         if rng.chance(1, 10) { out.push_str(&format!("--[[c{}]] ", i)); }     // comment on the statement's own line
+        // directives written as block comments on the statement's own line: they do not close the group, so an ignored
+        // statement can sit in the middle of one
+        if rng.chance(1, 18) { out.push_str("--[[ stylua: ignore ]] "); }
+        else if rng.chance(1, 30) && !in_region { out.push_str("--[[ stylua: ignore start ]] "); in_region = true; }
+        else if rng.chance(1, 12) && in_region { out.push_str("--[[ stylua: ignore end ]] "); in_region = false; }
         let name = *rng.pick(NAMES);
         let line = match rng.below(12) {
             0..=5 => {
